@@ -35,6 +35,12 @@ ASMJIT_FAVOR_SIZE Error FuncArgsContext::init_work_data(const FuncFrame& frame, 
     _work_data[size_t(RegGroup::kGp)]._arch_regs &= ~Support::bit_mask<RegMask>(arch_traits().fp_reg_id());
   }
 
+  // A function that enabled AVX-512 can use all 32 vector registers in 64-bit mode (the register allocator
+  // of Compiler does that), so arguments can be assigned to them.
+  if (arch == Arch::kX64 && frame.is_avx512_enabled()) {
+    _work_data[size_t(RegGroup::kVec)]._arch_regs = 0xFFFFFFFFu;
+  }
+
   uint32_t reassignment_flag_mask = 0;
 
   // Extract information from all function arguments/assignments and build Var[] array.
